@@ -48,9 +48,9 @@ ASSUMPTIONS = [
 ]
 PROBES = [
     "vector_only_vs_tensor_only", "negative_mean_data", "single_row_parts", "rejected_between_accepted",
-    "negative_axis", "float32_part", "tensor_4d", "apply_vector", "apply_tensor", "no_stats_tensor", "midway_apply",
+    "negative_axis", "float32_part", "mean_much_larger_than_std", "nostats_after_aborted_apply", "tensor_4d", "apply_vector", "apply_tensor", "no_stats_tensor", "midway_apply",
 ]
-FAULT_KINDS = ["rejected_wrong_dim", "rejected_empty"]
+FAULT_KINDS = ["rejected_wrong_dim", "rejected_empty", "apply_aborted_by_warning"]
 
 FORMS = ("vec", "md", "dm", "t3", "t4")
 
@@ -122,13 +122,18 @@ def generate(rng, tier, k):
     else:
         n = rng.randrange(64, 600)
     rec = {"regime": regime, "n": n, "d": d, "seed": rng.randrange(1 << 30)}
+    narrow = rng.random() < 0.15  # coefficients whose spread is tiny compared with their mean (but far from zero variance)
     if regime == "exact":
-        rec["spread"] = rng.choice((512, 4096, 30000))
-        rec["offsets"] = [rng.choice((0, 0, -20000, 15000, -3000)) for _ in range(d)]
+        rec["spread"] = rng.choice((512, 4096, 30000)) if not narrow else rng.choice((600, 800))
+        rec["offsets"] = [rng.choice((0, 0, -20000, 15000, -3000)) if not narrow else rng.choice((60000, -64000, 0))
+                          for _ in range(d)]
     else:
         rec["sigma"] = rng.choice((0.01, 1.0, 1.0, 50.0))
         rec["means"] = [rng.choice((0.0, 1.0, -3.0, -12.0, 40.0)) * rec["sigma"] * rng.choice((1, 1, 10))
                         for _ in range(d)]
+        if narrow:
+            rec["sigma"] = rng.choice((1.0, 2.0))
+            rec["means"] = [rng.choice((30000.0, -8000.0, 100000.0, 0.0)) for _ in range(d)]
     nh = rng.choice((3, 3, 4))
     styles = ["vec", "one"] + ["mixed"] * (nh - 2)
     rng.shuffle(styles)
@@ -145,7 +150,7 @@ def generate(rng, tier, k):
     if rng.random() < 0.5:
         nostats = {"m": rng.randrange(3, 20), "seed": rng.randrange(1 << 30), "norm_var": rng.random() < 0.7,
                    "form": rng.choice(("md", "dm", "t3")), "pos": rng.randrange(0, 3), "neg_axis": rng.random() < 0.5,
-                   "dtype": rng.choice(("float64", "float32"))}
+                   "dtype": rng.choice(("float64", "float32")), "abort_first": rng.random() < 0.3}
     midway = rng.random() < 0.3
     return {"data": rec, "histories": hist, "queries": queries, "nostats": nostats, "midway": midway}
 
@@ -216,6 +221,9 @@ def execute(scn, keep_trace=False):
     sigparts = []
     if (X.mean(axis=0) < 0).any():
         res.probe("negative_mean_data")
+    with np.errstate(divide="ignore", invalid="ignore"):
+        if n >= 2 and (np.abs(X.mean(axis=0)) / np.maximum(X.std(axis=0), 1e-300) > 1e3).any():
+            res.probe("mean_much_larger_than_std")
     scale_data = float(np.abs(X).max()) or 1.0
 
     insts = []  # per history: (inst_nv_true, inst_nv_false)
@@ -336,8 +344,7 @@ def execute(scn, keep_trace=False):
                 ok = False
                 break
             if scn.get("midway") and hi == 0 and accepted in (2, 3) and mdl.count >= 2:
-                mean, var = mdl.mean_var()
-                if all(float(v) > 1e-3 * scale_data ** 2 for v in var):
+                if _well(mdl, exact):
                     res.probe("midway_apply")
                     q = {"form": "vec", "m": 1, "seed": 77 + accepted, "norm_var": True, "dtype": "float64"}
                     bad = _check_query(a, b, mdl, q, d, scale_data, X, exact, res, tr, facts, None)
@@ -366,8 +373,7 @@ def execute(scn, keep_trace=False):
             if mdl_h.count < 2:
                 well = False
                 break
-            mean, var = mdl_h.mean_var()
-            well = well and all(float(v) > 1e-3 * scale_data ** 2 for v in var)
+            well = well and _well(mdl_h, exact)
         if well:
             for qi, q in enumerate(scn["queries"]):
                 outs = []
@@ -404,6 +410,19 @@ def execute(scn, keep_trace=False):
     res.nontrivial = bool(len(set(sigparts)) >= 2 and scn["queries"]) or bool(res.probes)
     res.trace = tr
     return res
+
+
+def _well(mdl, exact):
+    """Variance far from the zero-variance replacement (numpy.isclose to 0, i.e. <= 1e-8) in every coefficient and a
+    conditioning E[x^2]/var that leaves the comparison tolerance meaningful (<= 1e-3 relative)."""
+    mean, var = mdl.mean_var()
+    for j in range(len(var)):
+        v = float(var[j])
+        if v <= 1e-4:
+            return False
+        if float(mdl.ss[j] / mdl.count) / v > (1e9 if exact else 1e6):
+            return False
+    return True
 
 
 def _check_query(a, b, mdl, q, d, scale_data, X, exact, res, tr, facts, outs):
@@ -498,6 +517,26 @@ def _check_nostats(ns, d, res, tr, facts):
     arr.flags.writeable = False
     res.probe("no_stats_tensor")
     inst = _post.Standardize(norm_var=bool(ns.get("norm_var", True)))
+    if ns.get("abort_first"):
+        # fault: the caller runs with warnings as errors and the first tensor has a constant coefficient, so the
+        # zero-variance warning aborts that apply. Whatever it does, the instance must still have no statistics.
+        res.probe("nostats_after_aborted_apply")
+        res.fault("apply_aborted_by_warning")
+        bad = arr.copy()
+        bad_ax = ax % bad.ndim
+        sl = [slice(None)] * bad.ndim
+        sl[bad_ax] = 0
+        bad[tuple(sl)] = 0.25
+        with warnings.catch_warnings():
+            warnings.simplefilter("error")
+            try:
+                inst.apply(bad, ax)
+            except Exception:
+                pass
+        if bool(inst.have_stats):
+            res.violate("HAVE_STATS", "have_stats is true although nothing was ever accumulated (after an apply without "
+                        "statistics was aborted by a warning raised as an error)", phase="nostats", **facts)
+            return
     try:
         with warnings.catch_warnings():
             warnings.simplefilter("ignore")
